@@ -178,6 +178,7 @@ Definition stop_first (m : model) : bool :=
 Definition elab (m : model) : rmodel :=
   {| r_cap := cap_of m;
      r_meths := mapi (elab_method m) 0 (m_methods m);
-     r_clonable := mem "derive (Clone)" (m_live_attrs m);
+     r_clonable := mem "derive ( Clone )" (m_live_attrs m);
      r_guard := forallb guard_ok (slf_bodies m);
-     r_stop_first := stop_first m |}.
+     r_stop_first := stop_first m;
+     r_drain := match m_lib m with Std | Tokio => true | _ => false end |}.
